@@ -71,6 +71,15 @@ SCENARIOS = {
         ('provider-delete-vs-child-create', [('rp_delete', 6), ('rp_create', 39, 7, 7, 6)]),
         ('inventory-delete-vs-claim', [('inv_delete', 6, 0), ('alloc_put', 39, cons(5, None, [(6, [(0, 1)])]))]),
         ('inventory-replace-vs-claim', [('inv_set', 39, 6, G[6], []), ('alloc_post', 39, [cons(5, None, [(6, [(0, 1)])])])]),
+        ('inventory-delete-all-vs-claim', [('inv_delete_all', 39, 6), ('alloc_put', 39, cons(5, None, [(6, [(0, 1)])]))]),
+        ('reshape-drop-class-vs-claim', [('reshape', 39, [(6, G[6], [])], []), ('alloc_put', 39, cons(5, None, [(6, [(0, 1)])]))]),
+        ('provider-delete-vs-inventory-set', [('rp_delete', 3), ('inv_set', 39, 3, G[3], [inv(0, 4)])]),
+        ('provider-delete-vs-inventory-post', [('rp_delete', 3), ('inv_post', 39, 3, inv(0, 4))]),
+        ('provider-delete-vs-traits-set', [('rp_delete', 3), ('traits_set', 39, 3, G[3], [100002])]),
+        ('provider-delete-vs-aggregates-set', [('rp_delete', 3), ('aggs_set', 39, 3, G[3], [1, 2])]),
+        ('provider-delete-vs-reshape', [('rp_delete', 3), ('reshape', 39, [(3, G[3], [inv(0, 4)])], [])]),
+        ('provider-delete-vs-reshape-claim', [('rp_delete', 6), ('reshape', 39, [(6, G[6], [inv(0, 4), inv(1, 8)])],
+                                                                   [cons(5, None, [(6, [(1, 2)])])])]),
     ],
     'C09': [
         ('rename-vs-reparent', [('rp_update', 39, 4, 9, 1), ('rp_update', 39, 4, 4, 6)]),
